@@ -118,8 +118,10 @@ class Builder:
     """Builds random circuits through the public API, logging the program."""
 
     def __init__(self, rng, lw, *, loss_p=0.15, param_p=0.0, allow=None, max_herald_photons=2,
-                 on_add=None):
+                 on_add=None, mode_form_p=0.06):
         self.on_add = on_add
+        self.mode_form_p = mode_form_p   # how often a mode number is handed over as numpy integer / integral float
+        self._forms: list = []
         self.last = None            # description of the API call being attempted
         self.children: list = []    # (child circuit, its log) of every circuit that was added to a parent
         self.rng, self.lw = rng, lw
@@ -128,6 +130,19 @@ class Builder:
         self.allow = allow or {"bs", "ps", "loss", "barrier", "swaps", "unitary"}
         self.max_herald_photons = max_herald_photons
         self.params: list = []
+
+    # -- mode numbers in the equivalent forms the Circuit API accepts (its range check admits any integer-valued number)
+    def F(self, m):
+        if m is None or self.rng.random() >= self.mode_form_p:
+            return m
+        form = str(self.rng.choice(["np.int64", "np.int32", "np.intp", "float"]))
+        self._forms.append(form)
+        return {"np.int64": np.int64, "np.int32": np.int32, "np.intp": np.intp, "float": float}[form](m)
+
+    def _note_forms(self, log):
+        if self._forms:
+            log.append(["mode_form", "the previous call's mode numbers were passed as " + "/".join(sorted(set(self._forms)))])
+            self._forms = []
 
     # -- values, possibly wrapped in Parameters
     def _maybe_param(self, v, lo=None, hi=None):
@@ -156,11 +171,11 @@ class Builder:
                 loss = pick_unit(rng)
             if rng.random() < 0.15 and b == a + 1 and loss == 0 and conv == "Rx":
                 self.last = ['bs', a, None, rl, conv, 0, self.state(c)]
-                c.bs(a, reflectivity=r)
+                c.bs(self.F(a), reflectivity=r)
                 log.append(["bs", a, None, rl, conv, 0])
             else:
                 self.last = ['bs', a, b, rl, conv, loss, self.state(c)]
-                c.bs(a, b, r, loss, conv)
+                c.bs(self.F(a), self.F(b), r, loss, conv)
                 log.append(["bs", a, b, rl, conv, loss])
         elif kind == "ps":
             m = int(rng.integers(n))
@@ -169,13 +184,13 @@ class Builder:
             if "loss" in self.allow and rng.random() < self.loss_p:
                 loss = pick_unit(rng)
             self.last = ['ps', m, pl, loss, self.state(c)]
-            c.ps(m, phi, loss)
+            c.ps(self.F(m), phi, loss)
             log.append(["ps", m, pl, loss])
         elif kind == "loss":
             m = int(rng.integers(n))
             l, ll = self._maybe_param(pick_unit(rng))
             self.last = ['loss', m, ll, self.state(c)]
-            c.loss(m, l)
+            c.loss(self.F(m), l)
             log.append(["loss", m, ll])
         elif kind == "barrier":
             if rng.random() < 0.5:
@@ -188,7 +203,7 @@ class Builder:
                 if rng.random() < 0.5:
                     modes = sorted(modes)
                 self.last = ['barrier', modes, self.state(c)]
-                arg = list(modes)
+                arg = [self.F(x) for x in modes]
                 c.barrier(arg)
                 arg.append(0)          # the caller's list is the caller's: changing it later must not matter
                 arg.reverse()
@@ -196,7 +211,7 @@ class Builder:
         elif kind == "swaps":
             d = random_swaps(rng, n)
             self.last = ['swaps', d, self.state(c)]
-            arg = dict(d)
+            arg = {self.F(x): self.F(y) for x, y in d.items()}
             c.mode_swaps(arg)
             arg.clear()                # idem for the swap dictionary
             log.append(["swaps", d])
@@ -225,9 +240,10 @@ class Builder:
             un = self.lw.Unitary(arr if rng.random() < 0.8 else arr.tolist() if False else arr)
             if rng.random() < 0.5:
                 arr[...] = 0           # ... and for the array a Unitary was built from
-            c.add(un, m)
+            c.add(un, self.F(m))
             arr[...] = 1
             log.append(["unitary", m, k, seed])
+        self._note_forms(log)
         return kind
 
     @staticmethod
@@ -274,12 +290,14 @@ class Builder:
                 nph = min(nph, 1)
             if i == o and rng.random() < 0.5:
                 self.last = ['herald', nph, int(i), None, self.state(c)]
-                c.herald(nph, int(i))
+                c.herald(nph, self.F(int(i)))
                 log.append(["herald", nph, int(i), None])
+                self._note_forms(log)
             else:
                 self.last = ['herald', nph, int(i), int(o), self.state(c)]
-                c.herald(nph, int(i), int(o))
+                c.herald(nph, self.F(int(i)), self.F(int(o)))
                 log.append(["herald", nph, int(i), int(o)])
+                self._note_forms(log)
 
     @staticmethod
     def _full(c, m):
@@ -337,8 +355,9 @@ class Builder:
             if self.on_add is not None:
                 self.on_add(c, child, m, group)
             self.last = ['add', sub_log, m, group, self.state(c)]
-            c.add(child, m, group)
+            c.add(child, self.F(m), group)
             log.append(["add", sub_log, m, group])
+            self._note_forms(log)
             if len(self.children) < 6:
                 self.children.append((child, sub_log))
             if rng.random() < 0.12:
@@ -350,8 +369,9 @@ class Builder:
                     if self.on_add is not None:
                         self.on_add(c, child, m2, g2)
                     self.last = ['add_same_child_again', sub_log, m2, g2, self.state(c)]
-                    c.add(child, m2, g2)
+                    c.add(child, self.F(m2), g2)
                     log.append(["add_same_child_again", m2, g2])
+                    self._note_forms(log)
         if rng.random() < direct_heralds_p:
             self.add_heralds(c, log, int(rng.integers(1, 3)))
         return c
